@@ -28,7 +28,7 @@ ASSUMPTIONS = ['faults are injected at the open() boundary of the handlelimiter 
                'a write() may raise only if an open failed while no other handle of the limiter was live; data of such a write may be absent',
                'gzip and the file system are trusted']
 MIN_NONTRIVIAL = {'quick': 400, 'thorough': 20000}
-REQUIRED_MONITORS = ['inj:open_attempts', 'inj:faults_fired', 'hist:writes', 'oracle:files_compared', 'inj:emfile_fired',
+REQUIRED_MONITORS = ['hist:records_with_non_ascii_text', 'inj:open_attempts', 'inj:faults_fired', 'hist:writes', 'oracle:files_compared', 'inj:emfile_fired',
                      'inj:transient_fired', 'inj:permanent_fired', 'reopen_append', 'rlimit:real_emfile_seen', 'split:bams_compared', 'inj:errno:emfile:ENFILE', 'inj:errno:transient:EIO', 'inj:errno:transient:None', 'hist:stale_files_present', 'hist:closed_in_between_and_used_again', 'paths:bare_file_names', 'hist:records_of_several_kb']
 EXHAUSTIVE = {'quick': False, 'thorough': True}
 SHARD_TIMEOUT = {'quick': 600, 'thorough': 7200}
@@ -112,7 +112,7 @@ def read_back(path, method):
     if method == 1:
         with gzip.open(path, 'rb') as f:
             return f.read().decode()
-    with builtins.open(path) as f:
+    with builtins.open(path, encoding='utf-8') as f:
         return f.read()
 
 
@@ -248,6 +248,9 @@ def run_case(case):
             files = [f'cell{j}.out' for j in range(nfiles)]
             seq = [(r.choice(files), f'w{k}:{r.randint(0, 999)}\n') for k in range(nw)]
             settings = {'maxHandles': r.randint(1, 3), 'pruneEvery': r.randint(1, 4), 'method': r.choice([1, 1, 0])}
+            if case['i'] % 3 == 2 and settings['method'] == 1:
+                seq = [(f, (dt.replace('w', 'w\u00b5', 1) if k % 2 == 0 else dt)) for k, (f, dt) in enumerate(seq)]
+                acc.count('hist:records_with_non_ascii_text')
             plans = [{}]
             with Scratch('c19') as d:
                 inj0, *_ = execute(hl_mod, d, seq, settings['maxHandles'], settings['pruneEvery'], settings['method'], {})
@@ -270,6 +273,11 @@ def run_case(case):
                     seq[k] = (seq[k][0], f'@long{k}\n' + 'ACGT' * (n_ // 4) + '\n+\n' + 'I' * n_ + '\n')
                 acc.count('hist:records_of_several_kb')
             settings = {'maxHandles': r.choice([1, 2, 4, 8, 16, 64]), 'pruneEvery': r.choice([1, 2, 5, 10, 50]), 'method': r.choice([1, 1, 0])}
+            if case['i'] % 3 == 2 and settings['method'] == 1:
+                # read names which carry a library name with characters outside ASCII (taken from a folder name); the compressed writer encodes UTF-8
+                for k in range(0, nw, 3):
+                    seq[k] = (seq[k][0], seq[k][1].replace('\n', ';LY:H\u00fcbrecht_5\u00b5l_\u6587\n', 1))
+                acc.count('hist:records_with_non_ascii_text')
             plans = []
             for _ in range(12):
                 p = {}
@@ -350,7 +358,7 @@ if mode == 'limiter':
 else:
     class Rec:
         # two demultiplexing methods number their cells alike: a cell is (index, method), and so is its file
-        def __init__(self, cell, k, mate): self.tags = {'bi': cell, 'MX': ('NLA', 'CS2C8U6')[(k // 3) % 2]}; self.s = f'@r{k}/{mate}\nACGT\n+\nIIII\n'
+        def __init__(self, cell, k, mate): self.tags = {'bi': cell, 'MX': ('NLA', 'CS2C8U6')[(k // 3) % 2]}; self.s = f'@r{k}/{mate}' + (';LY:H\u00fcbrecht_5\u00b5l' if k % 5 == 0 else '') + '\nACGT\n+\nIIII\n'
         def __str__(self): return self.s
     fh = FastqHandle(os.path.join(d, 'out'), pairedEnd=True, single_cell=True, maxHandles=500)
     for k in range(700):
